@@ -178,6 +178,12 @@ def h_simple_mix(i0: int, i1: int, i2: int, depth: int, as_dict: bool, shard=Non
             vals = [SIMPLE[i0], SIMPLE[i1], SIMPLE[i2]]
             v: Any = {"a": vals[0], "b": vals[1], "c": vals[2]} if as_dict else vals
             check_value(_wrap(v, depth, 0), f"simple values {vals!r} as {'dict' if as_dict else 'list'} depth {depth}")
+        if as_dict:
+            # keys one of which is a prefix of another, continued by characters that sort below / above the closing quote
+            tricky = ["name", "name 2", "name!", "nam", "name_x", "Name", "10", "9", "name#", ""]
+            d2 = {k: SIMPLE[(i0 + j) % n] if j % 2 else SIMPLE[(i1 + j) % n] for j, k in enumerate(tricky)}
+            check_value(_wrap(d2, depth, 0), f"dict with keys {tricky} depth {depth}")
+            check_value(_wrap({"k": d2, "k 1": [d2]}, depth, 0), f"nested dicts with keys {tricky} depth {depth}")
         if not as_dict:
             # python mode only: non-str keys
             from ak.ppobj import PrettyPrinter
